@@ -269,7 +269,36 @@ pub fn world_strategy(cfg: &GenCfg) -> impl Strategy<Value = WorldSpec> {
         2u8..=(cfg.max_users as u8).max(2),
         prop_oneof![2 => Just((0u32, 0u32, false)), 3 => (0u32..200_000, 0u32..500_000, any::<bool>())],
         prop_oneof![3 => Just(1u64 << 62), 1 => 1_000_000u64..1_000_000_000_000_000],
+        // staked-collateral banks (real add_bank_permissionless): in 10 % of the worlds every bank after the first
+        // becomes one with probability 1/2; the other banks keep their default / SOL tags, so mixing is attempted
+        (prop::bool::weighted(0.1), prop::collection::vec((1_000_000_000u64..2_000_000_000_000_000, 500u32..3000, any::<bool>()), 4)),
     )
+        .prop_map(|(mut banks, n_users, (pf, pr, pe), user_tokens, (with_staked, pools))| {
+            if with_staked && banks.len() > 1 {
+                let mut feed = banks[0].oracle.clone();
+                if feed.kind != 1 {
+                    feed = OracleSpec { kind: 1, conf: (feed.mant as u64) / 500, ema_conf: (feed.mant as u64) / 500, ..feed };
+                }
+                banks[0].oracle = feed.clone();
+                banks[0].asset_tag = 1;
+                for (i, b) in banks.iter_mut().enumerate().skip(1) {
+                    let (supply, rate_pm, st) = pools[i % pools.len()];
+                    if st {
+                        b.staked = Some(crate::world::StakedSpec { supply, stake: ((supply as u128 * rate_pm as u128 / 1000) as u64).saturating_add(1_000_000_000) });
+                        b.oracle = OracleSpec { kind: 3, ..feed.clone() };
+                        b.asset_tag = 2;
+                        b.token = 0;
+                        b.fee_bps = 0;
+                        b.fee_max = 0;
+                        b.decimals = 9;
+                        b.isolated = false;
+                        b.aw_i = b.aw_i.min(1_000_000);
+                        b.aw_m = b.aw_m.max(b.aw_i);
+                    }
+                }
+            }
+            (banks, n_users, (pf, pr, pe), user_tokens)
+        })
         .prop_map(|(banks, n_users, (pf, pr, pe), user_tokens)| WorldSpec {
             program_fee_fixed: pf,
             program_fee_rate: pr,
